@@ -161,6 +161,8 @@ LITERALS = [
     ('table with a header and no rows: node behind it', 'g\n  t table = """\nx int\nz str\n\n"""\n  after int = 7', 'g.after', 7, None, (I, 32, False)),
     ('empty int array', 'a int[:] = []', 'a', [], None, (I, 32, False)), ('empty float array with unit', 'a float[:] = [] m', 'a', [], 'm', (F, 64, None)), ('empty str array', 'a str[:] = []', 'a', [], None, (S, None, None)),
     ('array with one element', 'a float[1] = [2.5]', 'a', [2.5], None, (F, 64, None)), ('1x1 matrix', 'a int[1,1] = [[-3]]', 'a', [[-3]], None, (I, 32, False)), ('array with one zero', 'a int[1:] = [0]', 'a', [0], None, (I, 32, False)),
+    ('table whose separator line holds blanks', 't table = """\nx int\n   \n1\n3\n"""', 't.x', [1, 3], None, (I, 32, False)),
+    ('table whose separator line holds blanks, two columns', 'g\n  t table = """\nx int\ny float m\n  \n1 2.5\n3 4.5\n"""\n  after int = 1', 'g.t.y', [2.5, 4.5], 'm', (F, 64, None)),
     ('table with a single row', 't table = """\nx int\ny float m\n\n1 2.5\n"""', 't.y', [2.5], 'm', (F, 64, None)),
     ('table int column', 'out table = """\nsnap int\ntime float s\n\n0 0.234\n1 1.355\n2 2.535\n"""', 'out.snap', [0, 1, 2], None, (I, 32, False)),
     ('table float column with unit', 'out table = """\nsnap int\ntime float s\n\n0 0.234\n1 1.355\n2 2.535\n"""', 'out.time', [0.234, 1.355, 2.535], 's', (F, 64, None)),
